@@ -50,6 +50,7 @@ func (k *c03) RunCase(c *core.Ctx, i int) {
 	o.Assertions = r.Intn(3) == 0
 	o.MaxDepth = 4
 	o.Days = 4 + r.Intn(14)
+	o.Depth1 = r.Intn(5) == 0
 	j, info := gen.Accepted(r, o)
 	// sparse: drop some later redeclarations so that prices stay constant for a while
 	if r.Intn(2) == 0 {
